@@ -192,7 +192,9 @@ func (c19) typedGetter(c *mon.Ctx, i int64) {
 		idx = 1 // read the defaulted parameter b
 	}
 	fn := &runtimev2.Fn{
-		CallCheck: func(ctx *runtimev2.Task, e *ast.CallExpr) *errchain.PlError { return runtimev2.CheckPassParam(ctx, e, params) },
+		CallCheck: func(ctx *runtimev2.Task, e *ast.CallExpr) *errchain.PlError {
+			return runtimev2.CheckPassParam(ctx, e, params)
+		},
 		Call: func(ctx *runtimev2.Task, e *ast.CallExpr) *errchain.PlError {
 			switch getter {
 			case "int":
